@@ -115,7 +115,7 @@ def reject_line(draw):
         url = u["url"]
         rest = url[len("gemini://"):]
         if c == "scheme-other":
-            sch = draw(st.sampled_from(["http", "https", "gopher", "file", "gemin", "geminis", "spartan", "ftp"]))
+            sch = draw(st.sampled_from(["http", "https", "gopher", "file", "gemin", "geminis", "spartan", "ftp", "TITAN", "Titan", "tItAn"]))
             raw = (sch + "://" + rest).encode()
         elif c == "no-slashes":
             raw = ("gemini:" + rest).encode()
@@ -151,8 +151,10 @@ def reject_line(draw):
         raw = {"fragment": b"gemini://example.org/x#f", "userinfo": b"gemini://u@example.org/"}.get(c, raw[:1000])
         if c not in ("fragment", "userinfo"):
             return draw(reject_line())
+    followup = draw(st.sampled_from(["", "", "gemini://example.org/second\r\n", "titan://example.org/late.gmi;size=4\r\nDATA"]))
     return {"cls": "reject", "kind": "titan" if c.startswith("titan") else "gemini", "line": b2s(raw), "crlf": crlf,
-            "content": "", "corruption": c, "labels": [c], "uploads": uploads, "raw": True}
+            "content": "", "corruption": c, "labels": [c] + (["followup"] if followup else []), "uploads": uploads, "raw": True,
+            "followup": followup}
 
 
 @st.composite
@@ -212,6 +214,11 @@ def run_line(case: dict):
         elif isinstance(cut, float):
             k = max(1, min(len(data) - 1, int(len(raw) * cut)))
             chunks = [data[:k], data[k:]] if len(data) > 1 else [data]
+        if case.get("followup"):
+            # a well-formed request in a *separate* read right after the refused one (second TLS record of the same segment)
+            tr.feed(data)
+            tr.feed(s2b(case["followup"]))
+            chunks = []
         await srvsim.drive(sim, proto, tr, [c for c in chunks if c], [1], False)
         return sim, tr
 
@@ -286,9 +293,9 @@ def judge(case, raw, log, tr):
     if cls == "reject":
         if hcalls or ucalls or mcalls:
             return viol("invalid-request-reached-handler", f"{case['corruption']}: {raw[:120]!r} h={len(hcalls)} u={len(ucalls)} mw={len(mcalls)}", **info)
-        is_titan_line = raw.startswith(b"titan://")
+        is_titan_line = raw.lower().startswith(b"titan://")
         if is_titan_line and not case["uploads"]:
-            if case["corruption"] in ("too-long-crlf", "too-long-nocrlf", "bad-utf8"):
+            if case["corruption"] in ("too-long-crlf", "too-long-nocrlf", "bad-utf8") or not raw.startswith(b"titan://"):
                 allowed = (50, 59)
             else:
                 allowed = (50,)
